@@ -48,9 +48,40 @@ func freshSlice(v ssa.Value, seen map[ssa.Value]bool) (bool, string) {
 		if b, ok := x.Call.Value.(*ssa.Builtin); ok && b.Name() == "append" {
 			return freshSlice(x.Call.Args[0], seen)
 		}
+		if ok, _ := freshResult(&x.Call, 0, seen); ok {
+			return true, ""
+		}
 		return false, "result of call " + CallDesc(&x.Call).String()
+	case *ssa.Extract:
+		if call, ok := x.Tuple.(*ssa.Call); ok {
+			if ok2, _ := freshResult(&call.Call, x.Index, seen); ok2 {
+				return true, ""
+			}
+			return false, "result of call " + CallDesc(&call.Call).String()
+		}
 	case *ssa.Parameter:
 		return false, "parameter " + x.Name()
 	}
 	return false, "value " + v.Name() + " (" + ExprKey(v) + ")"
+}
+
+// freshResult: the idx-th result of a statically resolved callee with a body is a slice the callee
+// allocated itself on every return (a helper that builds and returns a new buffer).
+func freshResult(cc *ssa.CallCommon, idx int, seen map[ssa.Value]bool) (bool, string) {
+	g := cc.StaticCallee()
+	if g == nil || len(g.Blocks) == 0 || len(seen) > 200 {
+		return false, ""
+	}
+	any := false
+	for _, b := range g.Blocks {
+		r, ok := b.Instrs[len(b.Instrs)-1].(*ssa.Return)
+		if !ok || idx >= len(r.Results) {
+			continue
+		}
+		any = true
+		if ok2, why := freshSlice(r.Results[idx], seen); !ok2 {
+			return false, why
+		}
+	}
+	return any, ""
 }
